@@ -6,6 +6,6 @@ for spec in "$@"; do
   for S in A B; do
     echo "=== $ID $S"
     bash tools/confirm_seed3.sh $ID $S 2>&1 | tail -3
-    python3 tools/try_seed.py /tmp/r3-$ID-out/$S/patch.diff $ID $EXTRA 2>&1 | grep -v '^{' | cut -c1-600
+    python3 tools/try_seed.py /tmp/${ROUND:-r3}-$ID-out/$S/patch.diff $ID $EXTRA 2>&1 | grep -v '^{' | cut -c1-600
   done
 done
